@@ -387,3 +387,30 @@ V("c05-divide-sort-by-span", "C05", TX, "        get_order = itemgetter(0)\n", "
 V("c02-divide-clipped-wrong-index", "C02", TX, "                append_span((span_index, line_span))\n", "                append_span((position, line_span))\n", "R2.3")
 V("c05-benign-divide-lambda-key", "C05", TX, "        get_order = itemgetter(0)\n", "        get_order = lambda pair: pair[0]\n", None)
 V("c05-benign-divide-plain-sort", "C05", TX, "            line_spans.sort(key=get_order)\n", "            line_spans.sort()\n", None)
+
+# ---- round-3 rules and the defects fixed after it -------------------------------------
+AN = "rich/ansi.py"
+V("c14-ansi-unbounded-digits", "C14", AN, 'int(_code.lstrip("0")[:4] or "0")', 'int(_code)', "R14.1")
+V("c14-ansi-slice-can-be-empty", "C14", AN, 'int(_code.lstrip("0")[:4] or "0")', 'int(_code.lstrip("0")[:4])', "R14.1")
+V("c14-benign-ansi-three-digits", "C14", AN, 'int(_code.lstrip("0")[:4] or "0")', 'int(_code.lstrip("0")[:5] or "0")', None)
+V("c14-columns-zero-columns", "C14", "rich/columns.py", "column_count = max(1, (max_width) // (self.width + width_padding))", "column_count = (max_width) // (self.width + width_padding)", "R14.10")
+V("c14-benign-columns-or-1", "C14", "rich/columns.py", "column_count = max(1, (max_width) // (self.width + width_padding))", "column_count = (max_width // (self.width + width_padding)) or 1", None)
+V("c05-pad-left-negative", "C05", TX, "        assert len(character) == 1, \"Character must be a string of length 1\"\n        if count > 0:\n            self.plain = f\"{character * count}{self.plain}\"", "        assert len(character) == 1, \"Character must be a string of length 1\"\n        if count:\n            self.plain = f\"{character * count}{self.plain}\"", "R5.2")
+V("c05-benign-pad-left-ge-1", "C05", TX, "        assert len(character) == 1, \"Character must be a string of length 1\"\n        if count > 0:\n            self.plain = f\"{character * count}{self.plain}\"", "        assert len(character) == 1, \"Character must be a string of length 1\"\n        if count >= 1:\n            self.plain = f\"{character * count}{self.plain}\"", None)
+V("c10-print-noargs-bypasses-hooks", "C10", CONS, "        if not objects:\n            objects = (NewLine(),)\n", "        if not objects:\n            self.line()\n            return\n", "R10.8")
+V("c10-log-noargs-bypasses-hooks", "C10", CONS, "        if not objects:\n            self.print()\n            return\n", "        if not objects:\n            self.line()\n            return\n", "R10.8")
+V("c10-fileproxy-pending-hoisted", "C10", "rich/file_proxy.py", [("        lines: List[str] = []\n        while text:", "        pending = \"\".join(buffer)\n        lines: List[str] = []\n        while text:"), ("                lines.append(\"\".join(buffer) + line)", "                lines.append(pending + line)")], None, "R10.7")
+V("c16-leaf-repr-memo-by-value", "C16", "rich/pretty.py", "            node = Node(value_repr=to_repr(obj), last=root)", "            try:\n                _r = _leaf_reprs.get(obj)\n                if _r is None:\n                    _leaf_reprs[obj] = _r = to_repr(obj)\n            except TypeError:\n                _r = to_repr(obj)\n            node = Node(value_repr=_r, last=root)", "R16.6")
+V("c17-frame-lineno-from-frame", "C17", "rich/traceback.py", "                    lineno=line_no,", "                    lineno=frame_summary.f_lineno,", "R17.8")
+V("c17-frame-filename-other", "C17", "rich/traceback.py", "                filename = frame_summary.f_code.co_filename\n", "                filename = traceback.tb_frame.f_code.co_filename\n", "R17.8")
+V("c18-metric-float-division", "C18", "rich/palette.py", "                (((512 + red_mean) * red * red) >> 8)", "                ((512 + red_mean) * red * red / 256)", "R18.8")
+V("c18-metric-weight", "C18", "rich/palette.py", "                + (((767 - red_mean) * blue * blue) >> 8)", "                + (((768 - red_mean) * blue * blue) >> 8)", "R18.8")
+V("c18-benign-metric-floordiv", "C18", "rich/palette.py", "                (((512 + red_mean) * red * red) >> 8)", "                ((512 * red * red + red_mean * red ** 2) // 256)", None)
+V("c20-from-file-drops-inherit", "C20", "rich/theme.py", "        theme = Theme(styles, inherit=inherit)\n", "        theme = Theme(styles)\n", "R20.6")
+V("c20-read-drops-inherit", "C20", "rich/theme.py", "            return cls.from_file(config_file, source=path, inherit=inherit)", "            return cls.from_file(config_file, source=path)", "R20.6")
+V("c13-bisect-right-over-ends", "C13", CE, [("from functools import lru_cache\n", "from bisect import bisect_left, bisect_right\nfrom functools import lru_cache\n"),
+  ("    _table = CELL_WIDTHS\n    lower_bound = 0\n    upper_bound = len(_table) - 1\n    index = (lower_bound + upper_bound) // 2\n    while True:\n        start, end, width = _table[index]\n        if codepoint < start:\n            upper_bound = index - 1\n        elif codepoint > end:\n            lower_bound = index + 1\n        else:\n            return 0 if width == -1 else width\n        if upper_bound < lower_bound:\n            break\n        index = (lower_bound + upper_bound) // 2\n    return 1",
+   "    _ends = [end for _start, end, _width in CELL_WIDTHS]\n    index = bisect_right(_ends, codepoint)\n    if index < len(CELL_WIDTHS):\n        start, _end, width = CELL_WIDTHS[index]\n        if codepoint >= start:\n            return 0 if width == -1 else width\n    return 1")], None, "R13.2")
+V("c13-benign-bisect-left-over-ends", "C13", CE, [("from functools import lru_cache\n", "from bisect import bisect_left, bisect_right\nfrom functools import lru_cache\n"),
+  ("    _table = CELL_WIDTHS\n    lower_bound = 0\n    upper_bound = len(_table) - 1\n    index = (lower_bound + upper_bound) // 2\n    while True:\n        start, end, width = _table[index]\n        if codepoint < start:\n            upper_bound = index - 1\n        elif codepoint > end:\n            lower_bound = index + 1\n        else:\n            return 0 if width == -1 else width\n        if upper_bound < lower_bound:\n            break\n        index = (lower_bound + upper_bound) // 2\n    return 1",
+   "    _ends = [end for _start, end, _width in CELL_WIDTHS]\n    index = bisect_left(_ends, codepoint)\n    if index < len(CELL_WIDTHS):\n        start, _end, width = CELL_WIDTHS[index]\n        if codepoint >= start:\n            return 0 if width == -1 else width\n    return 1")], None, None)
